@@ -112,9 +112,9 @@ func (s *Entry) newChildLogger(args ...any) *Entry {
 	var name string
 	var ok bool
 	if len(args) == 0 {
-		name = stringtool.RandomStringPure(6)
+		name = s.unusedName()
 	} else if name, ok = args[0].(string); !ok || name == "" {
-		name = stringtool.RandomStringPure(6)
+		name = s.unusedName()
 	}
 	if l, ok := s.items[name]; ok {
 		return l
@@ -122,6 +122,18 @@ func (s *Entry) newChildLogger(args ...any) *Entry {
 
 	s.items[name] = newentry(s, args...)
 	return s.items[name]
+}
+
+// unusedName generates a random name that no direct child of s
+// is registered under yet, so that an anonymous child is always
+// a new logger rather than an existing one picked by accident.
+func (s *Entry) unusedName() (name string) {
+	for {
+		name = stringtool.RandomStringPure(6)
+		if _, taken := s.items[name]; !taken {
+			return
+		}
+	}
 }
 
 func (s *Entry) Each(cb func(l *Entry, depth int)) {
